@@ -25,7 +25,7 @@ func (c *Ctx) corruptShares(list [][]byte) [][]byte {
 	}
 	for k := c.rng.Range(1, 3); k > 0; k-- {
 		i := c.rng.Intn(len(out))
-		switch c.rng.Intn(10) {
+		switch c.rng.Intn(11) {
 		case 0: // sequence length
 			binary.BigEndian.PutUint32(out[i][30:], uint32(c.rng.Pick([]int{0, 1, 477, 478, 479, 4096, 1 << 20, 1<<32 - 1})))
 		case 1: // info byte
@@ -53,6 +53,16 @@ func (c *Ctx) corruptShares(list [][]byte) [][]byte {
 			for n := 0; n < 8; n++ {
 				out[i][38+c.rng.Intn(474)] = byte(c.rng.Intn(256))
 			}
+		case 9: // a 10-byte length delimiter of 2^63 or more at a unit start (int conversion hazards)
+			v := []byte{0x80, 0x80, 0x80, 0x80, 0x80, 0x80, 0x80, 0x80, 0x80, 0x01}
+			if c.rng.Bool() {
+				for n := 0; n < 9; n++ {
+					v[n] = 0x80 | byte(c.rng.Intn(128))
+				}
+			}
+			copy(out[i][34:], v)
+			copy(out[i][38:], v)
+			binary.BigEndian.PutUint32(out[i][30:], uint32(c.rng.Pick([]int{34, 38, 474})))
 		default: // all 0xff payload start: over-long varint
 			for n := 34; n < 60; n++ {
 				out[i][n] = 0xff
